@@ -104,14 +104,18 @@ func (t *ProcessorTask) Do(ctx context.Context, b *Batch) error {
 	recsOut := t.processor.Process(ctx, recsIn)
 
 	if len(recsOut) == 0 {
-		return cerrors.Errorf("processor didn't return any records")
+		// Fatal, same as in the default engine (stream.ProcessorNode): nothing
+		// was acked, so a restarted pipeline would feed the same records to the
+		// same processor and fail again, forever.
+		return cerrors.FatalError(cerrors.Errorf("processor didn't return any records"))
 	}
 	t.metrics.Observe(len(recsOut), start)
 
 	if len(recsOut) > len(recsIn) {
 		// More results than records: the surplus cannot be attributed to any
 		// record and marking it would index past the batch.
-		return cerrors.Errorf("processor was given %d record(s), but returned %d", len(recsIn), len(recsOut))
+		// Fatal for the same reason as above.
+		return cerrors.FatalError(cerrors.Errorf("processor was given %d record(s), but returned %d", len(recsIn), len(recsOut)))
 	}
 
 	if len(recsIn) > len(recsOut) {
